@@ -826,6 +826,9 @@ class Interp:
             a = Adt("LocalKey", [])
             a.tl_name = tl.group(1)
             return a
+        pm0 = re.fullmatch(r"(\w+(?:::\{closure#\d+\})*)::promoted\[(\d+)\]", s)
+        if pm0 and s in self.raw:
+            return self.call_fn(s, [])  # a promoted constant of a free function
         pm = re.fullmatch(r"(.+?)::(\w+(?:::\{closure#\d+\})*)::promoted\[(\d+)\]", s)
         if pm:
             # a promoted constant of function <..>::name: evaluate its MIR item
@@ -880,6 +883,8 @@ class Interp:
             return Enum(segs[-1], 0 if segs[-1] == "Ok" else 1, fields)
         if segs and segs[-1][:1].isupper() and fields:
             return Adt(segs[-1], fields)  # a tuple struct such as OrderedFloat(x)
+        if segs and not fields and segs[-1] in self.harper_types:
+            return Adt(segs[-1], [])  # a unit struct of harper (`PlainEnglish`)
         raise Unsupported(f"enum/struct constructor {name}")
 
     def rvalue(self, fr, rv):
